@@ -48,12 +48,12 @@ def run(ctx):
         "states": states + res.distinct, "transitions": transitions + res.generated,
         "traces_validated_against_impl": summ["rows"] + t,
         "samples": samples or [{"note": "no non-silent row in the sample"}],
-        "admission_rows_total": 5184, "admission_rows_executed": summ["rows"], "admission_rows_failed": summ["failed"],
+        "admission_rows_total": 8640, "admission_rows_executed": summ["rows"], "admission_rows_failed": summ["failed"],
         "exhaustive": not ctx.quick,
         "tlc_runs": runs, "router_traces": t, "router_steps": e,
     }, ["TLS client-certificate tenancy, websocket upgrade and the bridge are not exercised",
         "the scripted candidate connection waits 250 ms for a CONNACK and 120-300 ms for an effect on the monitor subscriber (real time, real router thread)",
-        "Admission.tla is a decision table read from remote()/mqtt_connect()/handle_auth()/handle_new_connection(); TLC checks it against the demanded property for all 5184 rows"])
+        "Admission.tla is a decision table read from remote()/mqtt_connect()/handle_auth()/handle_new_connection(); TLC checks it against the demanded property for all 8640 rows"])
 
 
 def replay(ctx, path):
